@@ -55,6 +55,9 @@ def run_locks(cfg, program, strategy, seed=0, tid=1):
                         elif op == 'bad_release':
                             res.release()
                             sch.emit({'ev': 'ret', 'c': cid, 'op': op, 'ret': R('none')})
+                        elif op == 'locked':
+                            r_ = res.locked()
+                            sch.emit({'ev': 'ret', 'c': cid, 'op': op, 'ret': R('true' if r_ is True else 'false' if r_ is False else 'weird')})
                         elif op == 'barrier':
                             def crit():
                                 sch.emit({'ev': 'enter', 'c': cid})
